@@ -1006,10 +1006,23 @@ func ruleC13(p *Prog, r *Result) {
 		if guardPol(pa, "err", cellEntry, nil) == 1 {
 			return true, "" // an earlier reference's error is already recorded and is kept
 		}
+		// what is recorded must be the error of the step that failed: the lookup's own assignment does not
+		// record a failure of the nested evaluation (seed C08-l: `v3, err := process2(...)` declares a new err)
+		lookupFailed := guardPol(pa, "err", mCall("bkl.getWithVar"), nil) == 1
 		for _, e := range pa.Effects {
-			if v := slotSet(e); v != nil && (mCall("bkl.getWithVar")(v) || nested(v) || mResOf(1, mCall("bkl.getWithVar"))(v) || mResOf(1, nested)(v)) {
+			v := slotSet(e)
+			if v == nil {
+				continue
+			}
+			if lookupFailed && (mCall("bkl.getWithVar")(v) || mResOf(1, mCall("bkl.getWithVar"))(v)) {
 				return true, ""
 			}
+			if !lookupFailed && (nested(v) || mResOf(1, nested)(v)) {
+				return true, ""
+			}
+		}
+		if !lookupFailed {
+			return false, "the nested evaluation of a looked-up string fails and its error is not stored in the shared error (a shadowed err?): the text {ERROR} is substituted and evaluation succeeds"
 		}
 		return false, "a failing reference is replaced by text without recording the error (empty/garbage substitution instead of an error)"
 	})
